@@ -49,3 +49,105 @@ MUTANTS['C12'] = {
     'netstring-msgsize-maxsize-short': ([(SU, "        self._msgsize_maxsize = len(str(maxsize)) + 1  # len(str()) == log10\n\n    def fileno",
                                           "        self._msgsize_maxsize = len(str(maxsize))  # len(str()) == log10\n\n    def fileno")], 'detect'),
 }
+
+CU = 'boltons/cacheutils.py'
+MUTANTS['C02'] = {
+    'evict-newest': ([(CU, """        self._anchor = anchor = oldanchor[NEXT]
+        evicted = anchor[KEY]""", """        self._anchor = anchor = oldanchor[PREV][PREV] if oldanchor[PREV][PREV] is not oldanchor else oldanchor[NEXT]
+        evicted = anchor[KEY]""")], 'detect'),
+    'lri-getitem-moves-to-front': ([(CU, """            try:
+                link = self._link_lookup[key]
+            except KeyError:
+                self.miss_count += 1
+                if not self.on_miss:
+                    raise
+                ret = self[key] = self.on_miss(key)
+                return ret
+
+            self.hit_count += 1
+            return link[VALUE]
+
+    def get(""", """            try:
+                link = self._get_link_and_move_to_front_of_ll(key)
+            except KeyError:
+                self.miss_count += 1
+                if not self.on_miss:
+                    raise
+                ret = self[key] = self.on_miss(key)
+                return ret
+
+            self.hit_count += 1
+            return link[VALUE]
+
+    def get(""")], 'detect'),
+    'capacity-lt-to-le': ([(CU, 'if len(self) < self.max_size:', 'if len(self) <= self.max_size:')], 'detect'),
+    'setdefault-no-softmiss': ([(CU, """            except KeyError:
+                self.soft_miss_count += 1
+                self[key] = default
+                return default""", """            except KeyError:
+                self[key] = default
+                return default""")], 'detect'),
+    'pop-forgets-ring': ([(CU, """            else:
+                self._remove_from_ll(key)
+            return ret""", """            else:
+                pass
+            return ret""")], 'detect'),
+    'update-dict-update': ([(CU, """            if callable(getattr(E, 'keys', None)):
+                for k in E.keys():
+                    setitem(k, E[k])""", """            if callable(getattr(E, 'keys', None)):
+                if len(self) + len(E) <= self.max_size and not any(k in self for k in E):
+                    for k in E.keys():
+                        setitem(k, E[k])
+                else:
+                    for k in reversed(list(E.keys())):
+                        setitem(k, E[k])""")], 'detect'),
+    'copy-drops-max_size': ([(CU, 'return self.__class__(max_size=self.max_size, values=items)',
+                              'return self.__class__(values=items)')], 'detect'),
+    'clear-keeps-ring': ([(CU, """            super().clear()
+            self._init_ll()""", """            super().clear()""")], 'detect'),
+    'lru-get-no-refresh': ([(CU, """    def __getitem__(self, key):
+        with self._lock:
+            try:
+                link = self._get_link_and_move_to_front_of_ll(key)
+            except KeyError:
+                self.miss_count += 1""", """    def __getitem__(self, key):
+        with self._lock:
+            try:
+                link = self._link_lookup[key] if self.hit_count % 7 == 6 else self._get_link_and_move_to_front_of_ll(key)
+            except KeyError:
+                self.miss_count += 1""")], 'detect'),
+    'setitem-existing-no-move': ([(CU, """            try:
+                link = self._get_link_and_move_to_front_of_ll(key)
+            except KeyError:
+                if len(self) < self.max_size:""", """            try:
+                link = self._link_lookup[key]
+            except KeyError:
+                if len(self) < self.max_size:""")], 'detect'),
+    'get-softmiss-double': ([(CU, """        except KeyError:
+            self.soft_miss_count += 1
+            return default""", """        except KeyError:
+            self.soft_miss_count += 1 if default is None else 2
+            return default""")], 'detect'),
+    'on-miss-not-cached-when-full': ([(CU, """                ret = self[key] = self.on_miss(key)
+                return ret
+
+            self.hit_count += 1
+            return link[VALUE]
+
+    def get(""", """                ret = self.on_miss(key)
+                if len(self) < self.max_size or self.max_size < 3:
+                    self[key] = ret
+                return ret
+
+            self.hit_count += 1
+            return link[VALUE]
+
+    def get(""")], 'detect'),
+    'copy-reverses-order': ([(CU, "return self.__class__(max_size=self.max_size, values=items)",
+                              "return self.__class__(max_size=self.max_size, values=items[::-1] if len(items) > 2 else items)")], 'detect'),
+    'ior-returns-copy': ([(CU, """        self.update(other)
+        return self
+""", """        self.update(other)
+        return self if len(self) < self.max_size else self.copy()
+""")], 'detect'),
+}
